@@ -31,6 +31,11 @@ func (c *Cast) Init(n *onnx.NodeProto) error {
 
 	attr := attributes[0]
 	if attr.GetName() == "to" {
+		// A data type is a 32 bit enum value; anything else must not be truncated into one.
+		if attr.GetI() != int64(int32(attr.GetI())) {
+			return ops.ErrUnsupportedAttribute(attr.GetName(), c)
+		}
+
 		c.to = int32(attr.GetI())
 	} else {
 		return ops.ErrInvalidAttribute(attr.GetName(), c)
